@@ -4,6 +4,7 @@ import Driver.Util
 import Driver.C15
 import Driver.Codec
 import Driver.Engine
+import Driver.Ckpt
 import Driver.Raft
 import Driver.Scan
 import Driver.Sync
@@ -28,5 +29,6 @@ def main (args : List String) : IO UInt32 := do
   | ["sync"] => loop Drv.Sync.step hin hout {}; hout.flush; return 0
   | ["scan"] => loop Drv.Scan.step hin hout none; hout.flush; return 0
   | ["raft"] => loop Drv.Raft.step hin hout Drv.Raft.init; hout.flush; return 0
+  | ["ckpt"] => loop Drv.Ckpt.step hin hout (); hout.flush; return 0
   | ["codec"] => loop Drv.Codec.step hin hout (); hout.flush; return 0
   | _ => IO.eprintln "usage: zvdriver <proto>"; return 2
